@@ -312,8 +312,8 @@ static int model_open(const char *path, bool *handled) {
     snprintf(b, sizeof b, "proc/t%d/stat", ti);
     auto cc = g_k.curcpu.find(tid); if (cc == g_k.curcpu.end()) { g_k.redraw(tid); cc = g_k.curcpu.find(tid); }
     std::string s = "1 (hw sim) name) R";            // the command name may contain blanks and parentheses
-    for (int i = 0; i < 35; i++) s += " 0";
-    s += " " + std::to_string(cc->second) + " 0 0 0\n";
+    for (int i = 0; i < 35; i++) s += " " + std::to_string(70000 + i);   // no other field looks like a CPU number: a parser that lands on the wrong column reports a CPU nobody has
+    s += " " + std::to_string(cc->second) + " 70100 70101 70102\n";
     int fd = serve(b, s);
     if (fd >= 0) { g_k.calls.back().set.insert((unsigned)cc->second); }
     return fd;
